@@ -225,7 +225,7 @@ class C15:
                    'D58 (non-PIC code uses local-exec TLS for objects defined in a shared library) recorded: the main unit of the shared configuration is built -fPIC']
 
     def budget(self, tier):
-        return 700 if tier == 'quick' else 15000
+        return 700 if tier == 'quick' else 8000
 
     def example(self, ch, ctx):
         st = ctx.stats
